@@ -316,6 +316,7 @@ def run_check(pid, cases, tier, seed, opts, meta):
     # ---- classify candidates
     known = load_known(pid)
     violations, known_hits, mismatches, unreplayed = [], {}, [], 0
+    unconfirmed = []
     rdir = os.path.join(os.environ.get('TV_REPLAY_DIR', os.path.join(VERIF, 'replays')), pid)
     by_sig = {}
     for cnd in cands:
@@ -337,7 +338,11 @@ def run_check(pid, cases, tier, seed, opts, meta):
                 reproduced = (cnd, rr, bad)
                 break
         if reproduced is None:
-            if tried:
+            if tried and meta.get('overapprox'):
+                # havoc-data checks explore a superset of the feasible paths (comparison outcomes are free): a candidate on such a path that
+                # no replay reproduces is expected and is not an encoding error; it is recorded and counted as inconclusive
+                unconfirmed.append({'sig': sg, 'n': len(lst), 'detail': lst[0].get('detail'), 'case': lst[0]['case']})
+            elif tried:
                 mismatches.append({'sig': sg, 'n': len(lst), 'detail': lst[0].get('detail'), 'case': lst[0]['case']})
             else:
                 unreplayed += 1
@@ -366,16 +371,18 @@ def run_check(pid, cases, tier, seed, opts, meta):
         print('  signature: %s   real-code result: %s' % (v['sig'], json.dumps(v['real'])[:300]))
     for m in mismatches:
         print('ENCODING-MISMATCH: %s (%s) case=%s' % (m['sig'], m['detail'], json.dumps(m['case'])[:300]))
+    for m in unconfirmed:
+        print('UNCONFIRMED-CANDIDATE (over-approximated path, no replay reproduced it; counted inconclusive): %s (%s) case=%s' % (m['sig'], m['detail'], json.dumps(m['case'])[:300]))
     for b in tv_bad:
         print('TRANSLATOR-VALIDATION-MISMATCH: %s %s' % (json.dumps(b['case'])[:300], b['disagreement']))
     for e in errors[:5]:
         print('HARNESS-ERROR: case=%s\n%s' % (json.dumps(e['case'])[:300], e['error']))
     for m in harness_msgs:
         print('HARNESS-ERROR: ' + m)
-    inconclusive = tot['unknown'] + tot['unsupported'] + len(timeouts)
+    inconclusive = tot['unknown'] + tot['unsupported'] + len(timeouts) + sum(m['n'] for m in unconfirmed)
     if inconclusive:
-        print('INCONCLUSIVE %d (solver unknown %d, unsupported paths %d, case time-outs %d)' % (
-            inconclusive, tot['unknown'], tot['unsupported'], len(timeouts)))
+        print('INCONCLUSIVE %d (solver unknown %d, unsupported paths %d, case time-outs %d%s)' % (
+            inconclusive, tot['unknown'], tot['unsupported'], len(timeouts), (', unconfirmed candidates %d' % sum(m['n'] for m in unconfirmed)) if unconfirmed else ''))
         for r in results:
             if r['unsupported_msgs']:
                 print('  unsupported: %s in %s' % (r['unsupported_msgs'][0], json.dumps(r['case'])[:200]))
@@ -408,7 +415,7 @@ def run_check(pid, cases, tier, seed, opts, meta):
             'translator_validation': {'traces_ok': tv_ok, 'disagreements': len(tv_bad), 'skipped': tv_skipped},
             'counterexamples': {'candidates': len(cands), 'replayed_violations': len(violations),
                                 'known_findings': {k: v['n'] for k, v in known_hits.items()},
-                                'encoding_mismatches': len(mismatches)},
+                                'encoding_mismatches': len(mismatches), 'unconfirmed_on_overapproximated_paths': [m['sig'] for m in unconfirmed]},
             'functions_encoded': meta.get('functions', []),
             'bounds': meta.get('bounds', ''), 'outside_bounds': meta.get('outside', ''),
             'technique': 'symbolic execution of /repo source over a symbolic torch/numpy boundary; every verdict is a z3 query (fresh solver per query); counterexamples replayed on real torch',
